@@ -2,7 +2,7 @@
    one, and only trash entries that its own manifest lists, each of which the fragment named by
    'M' recorded (a removed setsum, or the 'L' of one of its edits). *)
 From Coq Require Import NArith List Bool Lia Arith Sorted.
-From Blue Require Import Refs.Model Refs.ProofsBase Refs.ProofsMani Refs.ProofsInvM.
+From Blue Require Import Refs.Model Refs.Spec Refs.ProofsBase Refs.ProofsMani Refs.ProofsInvM.
 Import ListNotations.
 Open Scope N_scope.
 
@@ -171,4 +171,149 @@ Proof.
       * intros t [H|[]]. discriminate.
       * cbn [set_vs f_vs vs_strs]. auto.
       * intros t [H|H]; [discriminate|exact (Hrest t H)].
+Qed.
+
+(* the store's steps leave the verifier's manifest alone and only add to the ghost list of fragments *)
+Lemma store_apply_vs s p e roll s1 p1 : store_apply s p e roll = (s1, p1) ->
+  f_vs (s_fs s1) = f_vs (s_fs s) /\ s_v s1 = s_v s /\ (forall fr, In fr (s_frags s) -> In fr (s_frags s1)).
+Proof.
+  unfold store_apply. destruct (md_apply _ _ _ _ _) as [[[d ms] next] r]. intros [= <- <-]. cbn [s_fs s_v s_frags set_md f_vs].
+  repeat split. intros fr H. destruct r; cbn [rollover_ghost]; [apply in_or_app; now left|assumption].
+Qed.
+
+Lemma exec_vs t i s p1 s' op' : exec t i s p1 = (s', op') ->
+  f_vs (s_fs s') = f_vs (s_fs s) /\ s_v s' = s_v s /\ (forall fr, In fr (s_frags s) -> In fr (s_frags s')).
+Proof.
+  destruct i as [x|x|oe roll|x|h|h|n| | |x|x roll| | |x|rec tm]; cbn [exec]; intros E.
+  - destruct (mem x (f_sst (s_fs s))); injection E as <- <-; repeat split; auto.
+  - injection E as <- <-. repeat split; auto.
+  - destruct oe as [e|].
+    + destruct (store_apply s p1 e roll) as [s1 q] eqn:Es. injection E as <- <-. exact (store_apply_vs _ _ _ _ _ _ Es).
+    + injection E as <- <-. repeat split; auto.
+  - destruct (rc_dec x (p_refs p1)) as [r last]. injection E as <- <-. destruct last; [unfold to_trash; destruct (mem x (f_sst (s_fs s)))|]; repeat split; auto.
+  - destruct (aget h (p_snaps p1)); injection E as <- <-; repeat split; auto.
+  - destruct (aget h (p_snaps p1)); injection E as <- <-; repeat split; auto.
+  - destruct (log_find n (f_logs (s_fs s))); injection E as <- <-; repeat split; auto.
+  - destruct (md_open (f_md (s_fs s))) as [[[d ms] next] r]. injection E as <- <-. cbn [s_fs s_v s_frags set_md f_vs]. repeat split.
+    intros fr H. destruct r; cbn [rollover_ghost]; [apply in_or_app; now left|assumption].
+  - destruct (is_nil (md_live (f_md (s_fs s)))).
+    + destruct (store_apply s p1 (mkEdit [] [] None) false) as [s1 q] eqn:Es. injection E as <- <-. exact (store_apply_vs _ _ _ _ _ _ Es).
+    + injection E as <- <-. repeat split; auto.
+  - destruct (mem x (f_sst (s_fs s))); injection E as <- <-; repeat split; auto.
+  - destruct (mem x (ms_strs (p_ms p1))).
+    + injection E as <- <-. repeat split; auto.
+    + destruct (store_apply s p1 (mkEdit [] [x] None) roll) as [s1 q] eqn:Es. injection E as <- <-. exact (store_apply_vs _ _ _ _ _ _ Es).
+  - destruct (forallb _ _); injection E as <- <-; repeat split; auto.
+  - injection E as <- <-. repeat split; auto.
+  - destruct (mem x (f_sst (s_fs s)) && negb (mem x (f_trash (s_fs s)))); injection E as <- <-; [unfold to_trash; destruct (mem x (f_sst (s_fs s)))|]; repeat split; auto.
+  - injection E as <- <-. repeat split; auto.
+Qed.
+
+Lemma InvV_frame s s' : f_vs (s_fs s') = f_vs (s_fs s) -> s_v s' = s_v s ->
+  (forall fr, In fr (s_frags s) -> In fr (s_frags s')) -> InvV s -> InvV s'.
+Proof.
+  intros E1 E2 E3 [HL HU]. split.
+  - intros t Ht. rewrite E1 in Ht. destruct (HL t Ht) as [m [f [K1 [K2 K3]]]]. exists m, f. rewrite E1. auto.
+  - intros vp Hv. rewrite E2 in Hv. intros a t b E. rewrite E1. exact (HU vp Hv a t b E).
+Qed.
+
+Theorem InvV_step s ev : InvM s -> InvV s -> InvV (step s ev).
+Proof.
+  intros [HM _] HV. destruct ev as [sums rolls tm|t| |x roll|ins outs roll hold| |r|r| | |ok| ]; cbn [step].
+  - destruct (s_p s); [exact HV|]. match goal with |- InvV (if ?c then _ else _) => destruct c end; [|exact HV].
+    apply (InvV_frame s); auto.
+  - destruct (s_p s) as [p|]; [|exact HV]. destruct (pc_get t p) as [|i rest]; [exact HV|].
+    destruct (negb (p_ready p) && negb (t =? T_MAIN)); [exact HV|].
+    destruct (exec t i s (pc_set t rest p)) as [s1 op] eqn:Ee. destruct (exec_vs _ _ _ _ _ _ Ee) as [K1 [K2 K3]].
+    apply (InvV_frame s); auto.
+  - destruct (s_p s) as [p|]; [|exact HV]. destruct (p_ready p); [|exact HV]. apply (InvV_frame s); auto.
+  - destruct (s_p s) as [p|]; [|exact HV]. match goal with |- InvV (if ?c then _ else _) => destruct c end; [|exact HV]. apply (InvV_frame s); auto.
+  - destruct (s_p s) as [p|]; [|exact HV]. match goal with |- InvV (if ?c then _ else _) => destruct c end; [|exact HV]. apply (InvV_frame s); auto.
+  - destruct (s_p s) as [p|]; [|exact HV]. match goal with |- InvV (if ?c then _ else _) => destruct c end; [|exact HV]. apply (InvV_frame s); auto.
+  - destruct (s_p s) as [p|]; [|exact HV]. match goal with |- InvV (if ?c then _ else _) => destruct c end; [|exact HV]. apply (InvV_frame s); auto.
+  - destruct (s_p s) as [p|]; [|exact HV]. match goal with |- InvV (if ?c then _ else _) => destruct c end; [|exact HV]. apply (InvV_frame s); auto.
+  - apply (InvV_frame s); auto.
+  - destruct (s_v s) eqn:Ev; [exact HV|]. destruct HV as [HL HU]. split; [exact HL|].
+    intros vp [= <-]. cbn [vp_pc s_fs upd_v]. apply unlinks_listed_starts.
+  - destruct (s_v s) as [[pc]|] eqn:Ev; [|exact HV]. cbn [vp_pc]. destruct pc as [|i rest].
+    + destruct HV as [HL HU]. split; [exact HL|]. intros vp H. discriminate.
+    + destruct (vexec i ok rest (s_fs s)) as [fs' pc'] eqn:Ex. rewrite <- Ev in HM. exact (vexec_InvV s i rest ok fs' pc' HV Ev HM Ex).
+  - destruct HV as [HL HU]. split; [exact HL|]. intros vp H. discriminate.
+Qed.
+
+Lemma InvV_init : InvV sys0.
+Proof. split; [intros t []|discriminate]. Qed.
+
+Theorem InvV_reach evs : InvV (run sys0 evs).
+Proof.
+  assert (G : forall evs s, InvM s -> InvV s -> InvV (run s evs)).
+  { induction evs0 as [|e evs0 IH]; intros s HM HV; cbn [run]; [assumption|]. apply IH; [apply InvM_step, HM|apply InvV_step; assumption]. }
+  apply G; [apply InvM_init|apply InvV_init].
+Qed.
+
+(* ---- the two statements about one step of a pass *)
+Lemma log_remove_has n m ls : log_has m (log_remove n ls) = log_has m ls && negb (m =? n).
+Proof.
+  unfold log_has, log_remove. induction ls as [|l ls IH]; [reflexivity|]. cbn [filter existsb].
+  destruct (N.eqb_spec (l_num l) n) as [E|E]; cbn [negb existsb].
+  - rewrite IH. destruct (N.eqb_spec (l_num l) m) as [E2|E2]; cbn [orb]; [|reflexivity].
+    destruct (N.eqb_spec m n); [now rewrite andb_false_r|congruence].
+  - rewrite IH. destruct (N.eqb_spec (l_num l) m) as [E2|E2]; cbn [orb]; [|reflexivity].
+    destruct (N.eqb_spec m n); [congruence|reflexivity].
+Qed.
+
+Ltac same_case :=
+  match goal with Same : _ -> _ -> (forall x, _ -> _ -> False) /\ _ |- _ =>
+    let S1 := fresh in let S2 := fresh in
+    destruct (Same eq_refl eq_refl) as [S1 S2]; split;
+    [intros ? ?H1 ?H2; destruct (S1 _ H1 H2)|intros ? ?H1 ?H2; destruct (S2 _ H1 H2)]
+  end.
+
+Theorem verifier_step_unlinks s ok : InvM s -> InvV s ->
+  let s' := step s (EVStep ok) in
+  (forall x, In x (f_trash (s_fs s)) -> ~ In x (f_trash (s_fs s')) ->
+     In (TSst x) (vs_strs (f_vs (s_fs s))) /\
+     exists m f, vs_m (f_vs (s_fs s)) = Some m /\ In (m, f) (s_frags s) /\ exists e, In e f /\ In x (e_rm e)) /\
+  (forall n, log_has n (f_tlogs (s_fs s)) = true -> log_has n (f_tlogs (s_fs s')) = false ->
+     In (TLog n) (vs_strs (f_vs (s_fs s))) /\
+     exists m f, vs_m (f_vs (s_fs s)) = Some m /\ In (m, f) (s_frags s) /\ exists e, In e (tl f) /\ e_log e = Some n).
+Proof.
+  intros HM [HL HU]. cbn zeta. cbn [step]. destruct (s_v s) as [[pc]|] eqn:Ev; [|split; intros; [contradiction|congruence]].
+  cbn [vp_pc]. specialize (HU _ eq_refl). cbn [vp_pc] in HU.
+  destruct pc as [|i rest]; [split; cbn [s_fs upd_v]; intros; [contradiction|congruence]|].
+  destruct (vexec i ok rest (s_fs s)) as [fs' pc'] eqn:Ex. cbn [s_fs upd_v upd_fs].
+  assert (Same : f_trash fs' = f_trash (s_fs s) -> f_tlogs fs' = f_tlogs (s_fs s) ->
+           (forall x, In x (f_trash (s_fs s)) -> ~ In x (f_trash fs') -> False) /\
+           (forall n, log_has n (f_tlogs (s_fs s)) = true -> log_has n (f_tlogs fs') = false -> False)).
+  { intros E1 E2. rewrite E1, E2. split; intros; [contradiction|congruence]. }
+  destruct i as [n|n|t| |n]; cbn [vexec] in Ex.
+  - destruct (vs_m (f_vs (s_fs s))); [destruct (n <? n0)|]; injection Ex as <- <-; same_case.
+  - injection Ex as <- <-. same_case.
+  - destruct (HU [] t rest eq_refl) as [_ Hin]. destruct (HL t Hin) as [m [f [K1 [K2 K3]]]].
+    destruct t as [x|k]; injection Ex as <- <-; cbn [set_sst set_logs f_trash f_tlogs]; split.
+    + intros y Hy Hny. assert (y = x). { destruct (N.eq_dec y x); [assumption|]. exfalso. apply Hny. apply del_In. auto. }
+      subst y. split; [exact Hin|]. exists m, f. auto.
+    + intros; congruence.
+    + intros; contradiction.
+    + intros j Hj Hnj. rewrite log_remove_has, Hj in Hnj. cbn [andb] in Hnj. apply negb_false_iff, N.eqb_eq in Hnj. subst j.
+      split; [exact Hin|]. exists m, f. auto.
+  - injection Ex as <- <-. same_case.
+  - destruct (match vs_m (f_vs (s_fs s)) with Some old => old =? n | None => false end); [injection Ex as <- <-; same_case|].
+    destruct (is_nil (vs_strs (f_vs (s_fs s)))); cbn [negb] in Ex; [|injection Ex as <- <-; same_case].
+    destruct (frag_find n (f_md (s_fs s))); [|injection Ex as <- <-; same_case].
+    destruct ok; cbn [negb] in Ex; [|injection Ex as <- <-; same_case].
+    destruct (forallb _ _); injection Ex as <- <-; same_case.
+Qed.
+
+(* a verifier event never touches what the store reads when it opens, apart from the fragments
+   below the highest numbered one and the trash *)
+Theorem verifier_event_store_view s ev : InvM s -> verifier_event ev = true -> store_view (step s ev) = store_view s.
+Proof.
+  intros [HM _] Hev. destruct ev; try discriminate; cbn [step].
+  - destruct (s_v s); reflexivity.
+  - destruct (s_v s) as [[pc]|] eqn:Ev; [|reflexivity]. cbn [vp_pc]. destruct pc as [|i rest]; [reflexivity|].
+    destruct (vexec i ok rest (s_fs s)) as [fs' pc'] eqn:Ex.
+    destruct (vexec_inv _ _ _ _ _ _ _ HM Ex) as [_ [K2 [K3 [K4 K5]]]].
+    unfold store_view. cbn [s_fs s_p upd_v upd_fs]. now rewrite K2, K3, K4, K5.
+  - reflexivity.
 Qed.
